@@ -158,7 +158,9 @@ func (it *StringIterator) Next() bool {
 	}
 
 	r, s := utf8.DecodeRuneInString(string(it.V)[it.i:])
-	if r == utf8.RuneError || s == 0 {
+	// RuneError with width 1 is an invalid encoding; U+FFFD itself is a valid
+	// character of width 3 and must not end the iteration.
+	if (r == utf8.RuneError && s <= 1) || s == 0 {
 		return false
 	}
 
